@@ -506,6 +506,9 @@ def main_wrapper(prop, fn, argv=None):
     run = Run(prop, a.tier, a.seed)
     run.replay_path = a.replay
     try:
+        import mako
+        if not os.path.abspath(mako.__file__).startswith(os.path.abspath(MAKO_SRC) + os.sep):
+            raise MachineryError("mako imported from %s, not from MAKO_SRC=%s" % (mako.__file__, MAKO_SRC))
         rule = fn(run)
         if isinstance(rule, dict):
             code = run.finish(**rule)
